@@ -478,7 +478,11 @@ func checkCase(ctx context.Context, c Case) *verdict {
 				c.Pert.Kind, c.Pert.Mod, c.Pert.Path, c.Pert.Note, i, oa.b5[i])
 		}
 		if !want[i] && changed {
-			return bad("digest-oversensitive:"+c.Pert.Kind,
+			key := "digest-oversensitive:" + c.Pert.Kind
+			if c.Pert.Kind == "none" {
+				key = "digest-not-invariant" // only the presentation differs between view A and view C
+			}
+			return bad(key,
 				"perturbation %s of module %d (%s %s) left module files and dependencies of module %d unchanged, but its b5 digest went from %s (view %s) to %s (view %s); reference %s",
 				c.Pert.Kind, c.Pert.Mod, c.Pert.Path, c.Pert.Note, i, oa.b5[i], describeView(c.A, i), oc.b5[i], describeView(c.C, i), ref1.b5[i])
 		}
